@@ -23,8 +23,10 @@ def sources(qs, nparts=16):
             if n not in qgen.NORMALISED:
                 out.append('  if(mode=="replay"){ %s }' % ' '.join('bat::replay_all<Ad_%s<%s>>("%s", s);' % (n, T, n) for T, _ in NUMS))
                 out.append('  if(mode=="arith"){ %s }' % ' '.join('bat::arith<Ad_%s<%s>>("%s", seed, n);' % (n, T, n) for T, _ in NUMS))
+                out.append('  if(mode=="mutators"){ %s }' % ' '.join('bat::mutators<Ad_%s<%s>>("%s", seed, n);' % (n, T, n) for T, _ in NUMS))
                 out.append('  if(mode=="mathfn"){ %s }' % ' '.join('bat::mathfn<Ad_%s<%s>>("%s", seed, n);' % (n, T, n) for T, _ in NUMS))
                 out.append('  if(mode=="compare"){ %s }' % ' '.join('bat::compare_grid<Ad_%s<%s>>("%s", seed, n, 40, true);' % (n, T, n) for T, _ in NUMS))
+            out.append('  if(mode=="composite"){ %s }' % ' '.join('bat::composite<Ad_%s<%s>>("%s");' % (n, T, n) for T, _ in NUMS))
             out.append('  if(mode=="layout"){ %s }' % ' '.join('bat::layout<Ad_%s<%s>>("%s");' % (n, T, n) for T, _ in NUMS))
             casts = ' '.join('bat::cast_pair<Ad_%s<%s>, Ad_%s<%s>>("%s", seed, n, %s);' % (n, A, n, B, n, norm)
                              for A, _ in NUMS for B, _ in NUMS if A != B)
